@@ -285,9 +285,9 @@ def evalf(e, env, zq):
         except ValueError:
             return float('nan')
     if k == 'ifa':
-        return evalf(e[1], env, zq) if env['a'] else evalf(e[2], env, zq)
+        return evalf(e[1], env, zq) if env['__a'] else evalf(e[2], env, zq)
     if k == 'ifa0':
-        return evalf(e[2], env, zq) if env['a'] else evalf(e[1], env, zq)
+        return evalf(e[2], env, zq) if env['__a'] else evalf(e[1], env, zq)
     if k == 'invinf':
         x = evalf(e[1], env, zq)
         return (1 / x) if x != 0 else float('inf')
@@ -396,7 +396,7 @@ class Translated:
     def pyeval(self, args, zq, a=None):
         """float evaluation of the IR: returns list of returned values (None when a guard fails)"""
         env = dict(zip(self.inputs, args))
-        env['a'] = a
+        env['__a'] = a
         for g in self.guards:
             x = evalf(g[1], env, zq)
             if (g[0] == 'pos' and not x > 0) or (g[0] == 'nonneg' and not x >= 0) or \
